@@ -30,6 +30,7 @@ func init() {
 	vRegistry["c13_occurrence"] = c13Occurrence
 	vRegistry["c13_addvalue"] = c13AddValue
 	vRegistry["c13_history"] = c13History
+	vRegistry["c13_many"] = c13Many
 }
 
 // underSched runs f as thread 0 of a controlled execution with the default
@@ -574,6 +575,88 @@ func c13History(c *vrep.Ctx) {
 		}
 		if m := r.Note["msg"].(string); m != "" {
 			c.Violate("c13_history:"+id, fmt.Sprintf("calls %s (op 2i = NearestMatch(unknown i), 2i+1 = MultipleMatch(unknown i)): %s", id, m), r, m)
+		}
+	})
+}
+
+// c13Many: EVERY number 1..N of registered values; the unknown text holds one token-aligned
+// verbatim copy of each (separated by unrelated words), in registration order or reversed;
+// every copy must be reported with Confidence 1.0 at exactly its place, and NearestMatch of
+// every value must return it.
+func c13Many(c *vrep.Ctx) {
+	if !instrumented() {
+		panic("c13 needs the v1 instrumentation profile")
+	}
+	maxN := c.Pick(70, 300)
+	val := func(i int) string {
+		s := fmt.Sprintf("%c%c%c", 'a'+i%26, 'a'+(i/26)%26, 'a'+i/676)
+		return "grant" + s + " of rights" + s + " under terms" + s
+	}
+	c.R.Rule = fmt.Sprintf("EVERY number 1..%d of registered three-word-style values x unknown text with one verbatim copy of each (in registration order / reversed) x thresholds {0.5, 0.8}: MultipleMatch reports every copy with Confidence 1.0 and its exact Offset/Extent, all ranges inside the unknown, and NearestMatch(value i) = (value i, 1.0) for the first, middle and last value; non-trivial = all cases", maxN)
+	c.Bound("max_values", maxN)
+	ts := []float64{0.5, 0.8}
+	body := func(r *vx.Run) {
+		n := 1 + r.Choose(maxN, "values")
+		rev := r.Choose(2, "order") == 1
+		ti := r.Choose(len(ts), "threshold")
+		if r.Scout() {
+			return
+		}
+		cl := New(ts[ti], FlattenWhitespace)
+		for i := 0; i < n; i++ {
+			if err := cl.AddValue(fmt.Sprintf("V%03d", i), val(i)); err != nil {
+				panic(err)
+			}
+		}
+		var parts []string
+		for i := 0; i < n; i++ {
+			k := i
+			if rev {
+				k = n - 1 - i
+			}
+			parts = append(parts, val(k))
+		}
+		unknown := "intro " + strings.Join(parts, " zzsep ") + " outro"
+		normU := cl.normalize(unknown)
+		var ms Matches
+		near := map[int]*Match{}
+		p, d := underSched(func() {
+			ms = cl.MultipleMatch(unknown)
+			for _, i := range []int{0, n / 2, n - 1} {
+				near[i] = cl.NearestMatch(val(i))
+			}
+		})
+		msg := ""
+		switch {
+		case p != "" || d != "":
+			msg = fmt.Sprintf("panic=%q deadlock=%q", p, d)
+		default:
+			msg = checkMatches(ms, normU, ts[ti])
+			for i := 0; i < n && msg == ""; i++ {
+				at := strings.Index(normU, cl.normalize(val(i)))
+				found := false
+				for _, m := range ms {
+					if m.Name == fmt.Sprintf("V%03d", i) && m.Confidence == 1.0 && m.Offset == at && m.Extent == len(cl.normalize(val(i))) {
+						found = true
+					}
+				}
+				if !found {
+					msg = fmt.Sprintf("value %d of %d (%q, verbatim at %d) is not reported with Confidence 1.0 at its place (%d matches returned)", i, n, val(i), at, len(ms))
+				}
+			}
+			for i, m := range near {
+				if msg == "" && (m == nil || m.Name != fmt.Sprintf("V%03d", i) || m.Confidence != 1.0) {
+					msg = fmt.Sprintf("NearestMatch(value %d of %d) = %+v", i, n, m)
+				}
+			}
+		}
+		r.Note = map[string]interface{}{"id": fmt.Sprintf("%d values reversed=%v T=%v", n, rev, ts[ti]), "msg": msg}
+	}
+	c.Run(vSplitExplorer(c, 0, 1), body, func(r *vx.Run) {
+		c.R.Nontrivial++
+		if m := r.Note["msg"].(string); m != "" {
+			id := r.Note["id"].(string)
+			c.Violate("c13_many:"+strings.ReplaceAll(id, " ", "_"), id+": "+m, r, m)
 		}
 	})
 }
